@@ -240,6 +240,12 @@ var modelTargets = map[string]string{
 	"ModelIterValid":          "(*github.com/dgraph-io/badger/v4.Iterator).Valid",
 	"ModelIterValidForPrefix": "(*github.com/dgraph-io/badger/v4.Iterator).ValidForPrefix",
 	"ModelIterItem":           "(*github.com/dgraph-io/badger/v4.Iterator).Item",
+	"ModelNewBigCache":        "github.com/allegro/bigcache.NewBigCache",
+	"ModelCacheGet":           "(*github.com/allegro/bigcache.BigCache).Get",
+	"ModelCacheSet":           "(*github.com/allegro/bigcache.BigCache).Set",
+	"ModelCacheDelete":        "(*github.com/allegro/bigcache.BigCache).Delete",
+	"ModelCacheClose":         "(*github.com/allegro/bigcache.BigCache).Close",
+	"ModelCacheLen":           "(*github.com/allegro/bigcache.BigCache).Len",
 	"ModelAESNewCipher":       "crypto/aes.NewCipher",
 	"ModelNewGCM":             "crypto/cipher.NewGCM",
 	"ModelReadFull":           "io.ReadFull",
